@@ -32,8 +32,10 @@ ASSUMPTIONS = [
     "pixel-aligned, request SRS = source SRS, no resampling), flattened on white when the source says req.transparent false",
     "reference = straight-alpha float 'over'; colour compared premultiplied by alpha (colour under alpha ~0 is not "
     "observable), alpha compared as such when TRANSPARENT=true",
-    "tolerance for png/tiff: 2 + number of blend steps levels; png8: 99% of pixels within 72 levels and mean <= 14; "
-    "jpeg: 97% of pixels within 80 levels and mean <= 14 (lossy encoders, sharp synthetic edges)",
+    "tolerance for png/tiff: 2 + number of blend steps levels (8-bit rounding per step); png8 (256-colour quantiser): 99% of "
+    "the judged pixels within 32 levels and mean <= 5; jpeg: the reference is passed through a baseline JPEG encoder of "
+    "the configured quality (90) first, then 98% of the judged pixels within 40 levels and mean <= 6 (calibrated: passing "
+    "answers have max <= 10 / mean <= 1, failing ones mean >= 15); JPEG blocks touching unjudged pixels are not judged",
     "pixels within 1.5 px of a polygon coverage boundary, and pixels outside a non-clipping polygon but inside its "
     "bounding box, are not judged (rasteriser freedom / documented 'serves full source image')",
     "a coverage without clip limits the source to the coverage's bounding box; group sources replace the children's "
@@ -49,12 +51,13 @@ GRID_RES = [16.0, 8.0, 4.0, 2.0]
 TILE = 32
 FORMATS = {'png': 'image/png', 'png8': 'image/png; mode=8bit', 'jpeg': 'image/jpeg', 'tiff': 'image/tiff'}
 TWIN_HOSTS = ['t%d' % i for i in range(24)]
+AVOID = set(x for x in os.environ.get('C14_AVOID', '').split(',') if x)
 
 
 def setup_shard(run):
     up = upstream.install()
     h = layersup.LayersWMS(SRS)
-    for host in ['wmsa', 'wmsb', 'ttop'] + TWIN_HOSTS:
+    for host in ['wmsa', 'wmsb', 'ttop'] + ['wmsu%d' % i for i in range(8)] + TWIN_HOSTS:
         up.register(host, h)
 
 
@@ -96,7 +99,8 @@ def gen_cov(rng, F):
 
 def gen_source(rng, i, F, for_cache=False):
     kind = rng.choice(['rgba', 'rgba', 'rgba', 'rgb', 'pal', 'key'])
-    s = {'id': ('cs%d' if for_cache else 's%d') % i, 'url': rng.choice(['A', 'A', 'A', 'B']), 'opacity': None, 'key': None,
+    s = {'id': ('cs%d' if for_cache else 's%d') % i, 'url': rng.choice(['A', 'A', 'A', 'A', 'B', 'B', 'U%d' % (i % 8)]),
+         'opacity': None, 'key': None,
          'cov': None, 'min_res': None, 'max_res': None}
     seed = rng.randrange(1, 100000)
     if kind == 'key':
@@ -131,6 +135,16 @@ def gen_source(rng, i, F, for_cache=False):
         s['min_res'] = rng.choice([3.0, 6.0, 12.0])
     elif r < 0.25:
         s['max_res'] = rng.choice([3.0, 6.0, 12.0])
+    # debugging aid only (never set by ./check): C14_AVOID=opacity,clip_bbox,... keeps features out of the generated
+    # configurations so that failures behind an already known one can be looked at
+    if 'opacity' in AVOID:
+        s['opacity'] = None
+    if 'clip_bbox' in AVOID and s['cov'] and s['cov']['kind'] == 'bbox':
+        s['cov']['clip'] = False
+    if 'mixed' in AVOID and not s['transparent']:
+        s['url'] = 'U%d' % (i % 8)          # sources declared opaque are never combined with a neighbour
+    if 'res' in AVOID:
+        s['min_res'] = s['max_res'] = None
     return s
 
 
@@ -146,7 +160,7 @@ def gen_spec(rng):
             cs.append(gen_source(rng, k, F, for_cache=True))
             k += 1
         c = {'id': 'c%d' % ci, 'sources': cs, 'opacity': None}
-        if rng.random() < 0.2:
+        if rng.random() < 0.2 and 'opacity' not in AVOID:
             c['opacity'] = rng.choice([0.3, 0.6])
         caches.append(c)
     items = [s['id'] for s in sources] + [c['id'] for c in caches]
@@ -156,7 +170,7 @@ def gen_spec(rng):
         n = rng.choice([1, 1, 1, 2])
         node = {'name': 'L%d' % names['n'], 'sources': [rng.choice(items) for _ in range(n)]}
         names['n'] += 1
-        if rng.random() < 0.12:
+        if rng.random() < 0.12 and 'res' not in AVOID:
             if rng.random() < 0.5:
                 node['min_res'] = rng.choice([3.0, 6.0, 12.0])
             else:
@@ -170,8 +184,10 @@ def gen_spec(rng):
             node['layers'].append(group(depth + 1) if depth < 1 and rng.random() < 0.2 else leaf())
         if rng.random() < 0.45:
             node['sources'] = [rng.choice(items) for _ in range(rng.choice([1, 1, 2]))]
-            if rng.random() < 0.2:
+            if rng.random() < 0.2 and 'res' not in AVOID:
                 node['min_res'] = rng.choice([3.0, 6.0, 12.0])
+            if 'group_own' in AVOID:
+                del node['sources']
         return node
 
     tree = []
@@ -207,12 +223,24 @@ def gen_requests(rng, spec, n):
         chosen = []
         pool = names[:]
         rng.shuffle(pool)
+        used = set()
         for nm in pool:
             if len(chosen) >= k:
                 break
             if any(nm in anc[c] or c in anc[nm] for c in chosen):
                 continue
+            nd, sids, cids = involved(spec, [nm])
+            its = sids + cids
+            byn = {node['name']: node for node, par in nodes}
+            raw = []
+            for x in nd:
+                raw += byn[x].get('sources', [])
+            if len(raw) != len(set(raw)) or used & set(its):
+                continue        # the same source / cache is never drawn twice in one request
+            used |= set(its)
             chosen.append(nm)
+        if not chosen:
+            continue
         fmt = rng.choice(['png', 'png', 'png', 'png', 'tiff', 'png8', 'jpeg'])
         transparent = rng.random() < 0.5 and fmt != 'jpeg'
         bg = None
@@ -239,7 +267,7 @@ def source_conf(s, d, twin, idx, for_cache=False):
     if twin:
         url = 'http://%s/service?' % TWIN_HOSTS[idx % len(TWIN_HOSTS)]
     else:
-        url = 'http://wmsa/service?' if s['url'] == 'A' else 'http://wmsb/service?'
+        url = 'http://wms%s/service?' % s['url'].lower()
     c = {'type': 'wms', 'req': {'url': url, 'layers': s['up'], 'transparent': bool(s['transparent']), 'format': 'image/png'}}
     img = {}
     if s.get('opacity') is not None:
@@ -435,6 +463,8 @@ def reference(spec, req):
         steps += st
         dc |= d
         layers.append(f)
+    if 'opaque' in feats and 'transp' in feats:
+        feats.add('mixed_transparent')
     bg = None
     if not req['transparent']:
         bg = layersup.parse_bgcolor(req['bgcolor']) if req['bgcolor'] else (255, 255, 255)
@@ -477,7 +507,7 @@ def fetch(sc, req, extra_top):
 
 
 JPEG_QUALITY = 90
-LOSSY = {'png8': (72, 0.99, 14.0), 'jpeg': (40, 0.98, 6.0)}     # (level, share of pixels within it, mean) -- calibrated
+LOSSY = {'png8': (32, 0.99, 5.0), 'jpeg': (40, 0.98, 6.0)}     # (level, share of pixels within it, mean) -- calibrated
 
 
 def jpeg_roundtrip(f):
@@ -498,6 +528,20 @@ def compare(u8, exp, mask, req, tol, pair=False):
     fmt = req['format']
     if fmt == 'jpeg' and not pair:
         exp = jpeg_roundtrip(exp)
+        if not mask.all():
+            # a JPEG MCU (16x16 with 4:2:0 chroma) mixes unjudged pixels into its neighbours: drop every block that
+            # holds an unjudged pixel, and the blocks around it (chroma upsampling crosses block borders)
+            h, w = mask.shape
+            H, W = (h + 15) // 16, (w + 15) // 16
+            pad = np.ones((H * 16, W * 16), dtype=bool)
+            pad[:h, :w] = mask
+            blk = ~pad.reshape(H, 16, W, 16).all(axis=(1, 3))          # block holds an unjudged pixel
+            big = np.zeros((H + 2, W + 2), dtype=bool)
+            for dy in (0, 1, 2):
+                for dx in (0, 1, 2):
+                    big[dy:dy + H, dx:dx + W] |= blk
+            blk = big[1:-1, 1:-1]
+            mask = mask & ~np.repeat(np.repeat(blk, 16, axis=0), 16, axis=1)[:h, :w]
     dcol, da = compose.diff_premultiplied(u8, exp)
     d = dcol if fmt == 'jpeg' else np.maximum(dcol, da)
     n = int(mask.sum())
@@ -591,22 +635,18 @@ def evaluate(scp, sct, spec, req):
     return res
 
 
-_CUN = {}
-
-
 def cache_up_names(spec):
-    k = id(spec)
-    if k not in _CUN:
-        _CUN.clear()
-        _CUN[k] = set(cs['up'] for c in spec['caches'] for cs in c['sources'])
-    return _CUN[k]
+    return set(cs['up'] for c in spec['caches'] for cs in c['sources'])
 
 
 def failing(res):
     return not (res['ok1'] and res['ok2'])
 
 
-def mech_of(res, req):
+SILENT_FEATS = ('transp', 'res_range', 'cov_disjoint', 'cov_touch')
+
+
+def mech_of(res, req, ablated):
     ref = res['ref']
     if res['ok1'] and res['ok2']:
         fails = 'pair_only'
@@ -614,10 +654,229 @@ def mech_of(res, req):
         fails = 'both'
     else:
         fails = 'plain' if not res['ok1'] else 'defeated'
-    feats = sorted(f for f in ref['feats'] if f not in ('transp', 'res_range', 'cov_disjoint', 'cov_touch'))
+    feats = sorted(f for f in ref['feats'] if f not in SILENT_FEATS)
     return {'clause': 'no_image' if res['no_image'] else 'reference', 'fails': fails, 'shortcut': res['shortcut'],
-            'features': '+'.join(feats) or 'plain', 'n_drawn': ref['drawn'], 'transparent': bool(req['transparent']),
-            'lossless': req['format'] in ('png', 'tiff')}
+            'features': '+'.join(feats) or 'none', 'n_drawn': ref['drawn'], 'transparent': bool(req['transparent']),
+            'lossless': req['format'] in ('png', 'tiff'), 'ablated': bool(ablated)}
+
+
+# ---- diagnosis: shrink the failing request and the configuration to the features that are needed for the failure ------
+
+def _copy(o):
+    import json
+    return json.loads(json.dumps(o))
+
+
+def involved(spec, layer_names):
+    """(nodes, direct source ids, cache ids) in the subtrees of the requested layers"""
+    byname = {node['name']: node for node, par in walk(spec['tree'])}
+    nodes, sids, cids = [], [], []
+    cache_ids = set(c['id'] for c in spec['caches'])
+
+    def add(node):
+        nodes.append(node['name'])
+        for it in node.get('sources', []):
+            (cids if it in cache_ids else sids).append(it)
+        for ch in node.get('layers', []):
+            add(ch)
+    for nm in layer_names:
+        add(byname[nm])
+    return nodes, sorted(set(sids)), sorted(set(cids))
+
+
+def ablation_candidates(spec, req):
+    """list of (label, needs_rebuild, mutate(spec, req)) - each removes one optional feature"""
+    out = []
+
+    def R(label, fn):
+        out.append((label, False, fn))
+
+    def S(label, fn):
+        out.append((label, True, fn))
+    if req['format'] != 'png':
+        R('format', lambda sp, rq: rq.__setitem__('format', 'png'))
+    if req['bgcolor']:
+        R('bgcolor', lambda sp, rq: rq.__setitem__('bgcolor', None))
+    if spec['clr'] != 1:
+        S('clr', lambda sp, rq: sp.__setitem__('clr', 1))
+    nodes, sids, cids = involved(spec, req['layers'])
+
+    def src(sp, sid):
+        for x in sp['sources'] + [cs for c in sp['caches'] for cs in c['sources']]:
+            if x['id'] == sid:
+                return x
+
+    def node(sp, name):
+        for n, par in walk(sp['tree']):
+            if n['name'] == name:
+                return n
+    all_sids = list(sids)
+    for c in spec['caches']:
+        if c['id'] in cids:
+            all_sids += [cs['id'] for cs in c['sources']]
+            if c.get('opacity') is not None:
+                S('cache_opacity:' + c['id'], lambda sp, rq, cid=c['id']: [x for x in sp['caches'] if x['id'] == cid][0].__setitem__('opacity', None))
+            if len(c['sources']) > 1:
+                for j in range(len(c['sources'])):
+                    S('cache_src:%s:%d' % (c['id'], j), lambda sp, rq, cid=c['id'], j=j: [x for x in sp['caches'] if x['id'] == cid][0]['sources'].pop(j))
+    for sid in all_sids:
+        x = src(spec, sid)
+        if x.get('opacity') is not None:
+            S('opacity:' + sid, lambda sp, rq, sid=sid: src(sp, sid).__setitem__('opacity', None))
+        if x.get('key'):
+            S('key:' + sid, lambda sp, rq, sid=sid: src(sp, sid).__setitem__('key', None))
+        if x.get('cov'):
+            S('cov:' + sid, lambda sp, rq, sid=sid: src(sp, sid).__setitem__('cov', None))
+            if x['cov']['clip']:
+                S('clip:' + sid, lambda sp, rq, sid=sid: src(sp, sid)['cov'].__setitem__('clip', False))
+            if x['cov']['kind'] == 'poly':
+                S('poly:' + sid, lambda sp, rq, sid=sid: src(sp, sid)['cov'].__setitem__('kind', 'bbox'))
+        if x.get('min_res') or x.get('max_res'):
+            S('res:' + sid, lambda sp, rq, sid=sid: (src(sp, sid).__setitem__('min_res', None), src(sp, sid).__setitem__('max_res', None)))
+        if not x['transparent']:
+            S('opaque:' + sid, lambda sp, rq, sid=sid: src(sp, sid).__setitem__('transparent', True))
+        if x['kind'] == 'pal':
+            S('pal:' + sid, lambda sp, rq, sid=sid: src(sp, sid).update(kind='rgba', up='rgba' + src(sp, sid)['up'][3:]))
+    for nm in nodes:
+        n = node(spec, nm)
+        if n.get('min_res') or n.get('max_res'):
+            S('layer_res:' + nm, lambda sp, rq, nm=nm: (node(sp, nm).pop('min_res', None), node(sp, nm).pop('max_res', None)))
+        if len(n.get('sources', [])) > 1:
+            for j in range(len(n['sources'])):
+                S('layer_src:%s:%d' % (nm, j), lambda sp, rq, nm=nm, j=j: node(sp, nm)['sources'].pop(j))
+        if n.get('sources') and n.get('layers'):
+            S('group_kids:' + nm, lambda sp, rq, nm=nm: node(sp, nm).pop('layers'))
+        if n.get('layers') and len(n['layers']) > 1 and not n.get('sources') and nm in req['layers']:
+            for j in range(len(n['layers'])):
+                S('group_child:%s:%d' % (nm, j), lambda sp, rq, nm=nm, j=j: node(sp, nm)['layers'].pop(j))
+    return out
+
+
+def diagnose(run, d, spec, scp, sct, req, res, deadline, config=True):
+    """greedy: drop requested layers, then optional features of the request (config=False) and of the configuration
+    (config=True), while the failure (same clause) stays.  returns (spec, req, res, complete, scp, sct)"""
+    import time
+    cur_spec, cur_req, cur_res = spec, dict(req), res
+    cur_scp, cur_sct = scp, sct
+    n_eval = [0]
+    bulk_done = False
+    trusted = set()
+
+    def fclass(r):
+        return (r['no_image'], r['ok1'], r['ok2'], r['combined'], r['pruned'])
+
+    def keeps(r2):
+        # the same kind of failure: image/no image, the same variants (plain / defeated) are wrong, and the same
+        # optimisations (combined upstream request, pruned lower layer) were observed in the plain run
+        return failing(r2) and fclass(r2) == fclass(res)
+
+    def attempt(sp2, rq2, rebuild):
+        n_eval[0] += 1
+        dd = None
+        if rebuild:
+            dd = os.path.join(d, 'abl%d_%d' % (id(req) % 100000, n_eval[0]))
+            try:
+                p2 = build(sp2, os.path.join(dd, 'plain'), False)
+                t2 = build(sp2, os.path.join(dd, 'twin'), True)
+            except Exception:
+                shutil.rmtree(dd, ignore_errors=True)
+                return None, None, None, None
+        else:
+            p2, t2 = cur_scp, cur_sct
+        return evaluate(p2, t2, sp2, rq2), p2, t2, dd
+    complete = True
+    try:
+        changed = True
+        while changed:
+            changed = False
+            if len(cur_req['layers']) > 1:
+                for i in range(len(cur_req['layers'])):
+                    t = dict(cur_req)
+                    t['layers'] = cur_req['layers'][:i] + cur_req['layers'][i + 1:]
+                    r2 = evaluate(cur_scp, cur_sct, cur_spec, t)
+                    n_eval[0] += 1
+                    if keeps(r2):
+                        cur_req, cur_res = t, r2
+                        changed = True
+                        break
+                if changed:
+                    continue
+            cands = ablation_candidates(cur_spec, cur_req)
+            if config and not bulk_done:
+                # bulk steps first: strip every optional attribute at once, then strip down to attribute sets that were
+                # found sufficient in earlier complete diagnoses of this shard
+                bulk_done = True
+                present = set(lb.split(':')[0] for lb, rb, fn in cands if rb and lb.split(':')[0] in BULKABLE)
+                for K in [frozenset()] + sorted((k for k in _LEARNED if k and k <= present and k != present), key=len):
+                    todo = [(lb, fn) for lb, rb, fn in cands if rb and lb.split(':')[0] in BULKABLE and lb.split(':')[0] not in K]
+                    if not todo or (deadline is not None and time.time() > deadline):
+                        continue
+                    sp2, rq2 = _copy(cur_spec), dict(cur_req)
+                    for lb, fn in todo:
+                        try:
+                            fn(sp2, rq2)
+                        except Exception:
+                            pass
+                    r2, p2, t2, dd = attempt(sp2, rq2, True)
+                    if r2 is not None and keeps(r2):
+                        cur_spec, cur_req, cur_res, cur_scp, cur_sct = sp2, rq2, r2, p2, t2
+                        trusted = set(K)
+                        changed = True
+                        break
+                    if dd:
+                        shutil.rmtree(dd, ignore_errors=True)
+                if changed:
+                    continue
+            for label, rebuild, fn in cands:
+                if rebuild and not config:
+                    continue
+                if label.split(':')[0] in trusted:
+                    continue
+                if n_eval[0] > 80 or (deadline is not None and time.time() > deadline):
+                    complete = False
+                    break
+                sp2, rq2 = (_copy(cur_spec), dict(cur_req)) if rebuild else (cur_spec, dict(cur_req))
+                fn(sp2, rq2)
+                r2, p2, t2, dd = attempt(sp2, rq2, rebuild)
+                if r2 is not None and keeps(r2):
+                    cur_spec, cur_req, cur_res, cur_scp, cur_sct = sp2, rq2, r2, p2, t2
+                    changed = True
+                    break
+                if dd:
+                    shutil.rmtree(dd, ignore_errors=True)
+            if not complete:
+                break
+        if complete and config:
+            left = frozenset(lb.split(':')[0] for lb, rb, fn in ablation_candidates(cur_spec, cur_req)
+                             if rb and lb.split(':')[0] in BULKABLE)
+            _LEARNED.add(left)
+    finally:
+        pass
+    return cur_spec, cur_req, cur_res, complete, cur_scp, cur_sct
+
+
+def describe(spec, req, res):
+    items = draw_items(spec, req['layers'], res['ref']['res'])
+    nodes, sids, cids = involved(spec, req['layers'])
+    srcs = {}
+    for x in spec['sources']:
+        if x['id'] in sids:
+            srcs[x['id']] = {k: v for k, v in x.items() if v is not None and k not in ('id', 'kind')}
+    for c in spec['caches']:
+        if c['id'] in cids:
+            srcs[c['id']] = {'cache_of': [{k: v for k, v in cs.items() if v is not None and k not in ('kind',)} for cs in c['sources']],
+                             'opacity': c.get('opacity')}
+    byname = {node['name']: node for node, par in walk(spec['tree'])}
+    return ('GetMap %s | layer definitions: %r | drawn items per the configuration (bottom first): %r | upstream LAYERS seen, plain: %r '
+            'defeated: %r | tolerance %d levels | %s | sources: %r' % (
+                getmap_path(req), [byname[n] for n in req['layers']], [list(x) for x in items], res['names1'], res['names2'],
+                res['tol'], ' ;; '.join(res['txt']), srcs))
+
+
+_MEMO = {}
+_ABL = {'spent': 0.0}
+_LEARNED = set()
+BULKABLE = ('opacity', 'key', 'cov', 'clip', 'poly', 'res', 'opaque', 'pal', 'layer_res', 'group_kids', 'cache_opacity', 'clr')
 
 
 def run_case(run, case):
@@ -630,18 +889,20 @@ def run_case(run, case):
             scp = build(spec, os.path.join(d, 'plain'), False)
             sct = build(spec, os.path.join(d, 'twin'), True)
         except Exception as ex:
-            run.dc('config_rejected_by_loader:' + type(ex).__name__)
-            return
+            # every generated configuration is valid by the documentation: a rejection is a harness problem
+            raise RuntimeError('generated configuration rejected by the loader: %s: %s' % (type(ex).__name__, ex))
         run.hit('configs')
         for req in reqs:
             if run.out_of_time() and not run.replaying:
                 break
-            one_request(run, case, spec, scp, sct, req)
+            one_request(run, case, spec, scp, sct, req, d)
     finally:
         shutil.rmtree(d, ignore_errors=True)
 
 
-def one_request(run, case, spec, scp, sct, req):
+def one_request(run, case, spec, scp, sct, req, d):
+    import json
+    import time
     res = evaluate(scp, sct, spec, req)
     ref = res['ref']
     feats = ref['feats']
@@ -670,7 +931,7 @@ def one_request(run, case, spec, scp, sct, req):
         run.hit('group_requests')
     if 'cache' in feats:
         run.hit('cache_layers')
-    if 'res_hidden' in feats:
+    if 'res_hidden' in feats or 'layer_res_hidden' in feats or 'group_layer_res_hidden' in feats:
         run.hit('res_hidden_layers')
     if req['transparent']:
         run.hit('alpha_judged')
@@ -684,33 +945,31 @@ def one_request(run, case, spec, scp, sct, req):
     if res['ok1'] and res['ok2'] and res['okp']:
         return
     if res['ok1'] and res['ok2'] and not res['okp']:
-        # both answers satisfy the reference within the tolerance, their mutual distance is below twice the tolerance
+        # both answers satisfy the reference within the tolerance; their mutual distance is below twice the tolerance
         run.dc('pair_differs_but_both_within_tolerance_of_reference')
         return
-    # minimise the layer list: drop layers while the request keeps failing
-    cur = dict(req)
-    cur_res = res
-    if len(cur['layers']) > 1:
-        changed = True
-        while changed and len(cur['layers']) > 1:
-            changed = False
-            for i in range(len(cur['layers'])):
-                t = dict(cur)
-                t['layers'] = cur['layers'][:i] + cur['layers'][i + 1:]
-                r2 = evaluate(scp, sct, spec, t)
-                if failing(r2):
-                    cur, cur_res = t, r2
-                    changed = True
-                    break
-    mech = mech_of(cur_res, cur)
-    detail = ('GetMap %s | drawn items (bottom first): %r | upstream LAYERS plain: %r defeated: %r | tolerance %d | %s' % (
-        getmap_path(cur), [list(x) for x in draw_items(spec, cur['layers'], cur_res['ref']['res'])], cur_res['names1'],
-        cur_res['names2'], cur_res['tol'], ' ;; '.join(cur_res['txt'])))
-    detail += ' | sources: %r' % ({s['id']: {k: v for k, v in s.items() if v not in (None, False) and k not in ('id',)}
-                                   for s in spec['sources'] + [cs for c in spec['caches'] for cs in c['sources']]
-                                   if s['id'] in [it for it, via in draw_items(spec, cur['layers'], cur_res['ref']['res'])]
-                                   or any(s['id'] in [x['id'] for x in c['sources']] for c in spec['caches'])},)
-    run.violation(mech, {'i': case['i'], 'spec': spec, 'requests': [cur]}, detail)
+    # stage A (cheap, same configuration): fewest layers, png, no bgcolor
+    _, rqa, ra, _, _, _ = diagnose(run, d, spec, scp, sct, req, res, None, config=False)
+    pre = mech_of(ra, rqa, False)
+    key = json.dumps(pre, sort_keys=True)
+    if key in _MEMO and not run.replaying:
+        mech = dict(_MEMO[key])
+        detail = '[configuration not shrunk: same signature as an earlier, fully diagnosed failure] ' + describe(spec, rqa, ra)
+        run.violation(mech, {'i': case['i'], 'spec': spec, 'requests': [rqa]}, detail)
+        return
+    # stage B: remove optional features from the configuration (rebuilds both scenarios per candidate)
+    # (bounded by 80 evaluations, ~0.15 s each; it is allowed to overrun the shard budget so that every reported
+    # mechanism is a fully shrunk one - time spent here means fewer cases per run, reported as skipped_for_budget)
+    t0 = time.time()
+    sp2, rq2, r2, complete, _, _ = diagnose(run, d, spec, scp, sct, rqa, ra, None)
+    _ABL['spent'] += time.time() - t0
+    run.count('diagnosis_seconds', round(time.time() - t0, 2))
+    mech = mech_of(r2, rq2, complete)
+    if complete:
+        _MEMO[key] = mech
+    else:
+        run.count('diagnosis_cut_short')
+    run.violation(mech, {'i': case['i'], 'spec': sp2, 'requests': [rq2]}, describe(sp2, rq2, r2))
 
 
 def gen_cases(run):
